@@ -112,6 +112,7 @@ type Node struct {
 	tip          H
 	tipTS        uint64
 	earlierLife  bool // see Receive
+	ledgerAhead  bool // the ledger got the block of the height under consensus from elsewhere; Reset not called yet
 	pendingReset bool
 	resetHeld    bool // a slow application: the pending Reset is postponed until nothing else is deliverable
 	incarnation  int
@@ -438,6 +439,11 @@ func (n *Node) cbProcessBlock(b dbft.Block[H]) error {
 		n.w.violate("C05", "C05/two-blocks-one-height", n, fmt.Sprintf("second ProcessBlock at height %d", bb.index))
 	}
 	n.w.onDecide(n, bb)
+	if n.ledgerAhead {
+		// duplicate of a block the ledger already has: ignored by the application
+		n.pendingReset = true
+		return nil
+	}
 	// the application's ledger advances; it will call Reset (an event)
 	n.height = bb.index
 	n.tip = bb.Hash()
@@ -501,7 +507,7 @@ func (n *Node) Start() {
 }
 
 func (n *Node) Reset() {
-	n.pendingReset, n.resetHeld = false, false
+	n.pendingReset, n.resetHeld, n.ledgerAhead = false, false, false
 	n.api("Reset", nil, func() { n.d.Reset(n.tipTS) })
 	n.flush()
 }
